@@ -47,7 +47,7 @@ ASSUMPTIONS = ['contents are printable ASCII plus tab and newline (no CR, no non
                'URL fetching not exercised (offline)']
 
 MODELLED_FUNCS = {
-    'sugar/_io/main.py': ['_binary', '_file_opener', 'detect', 'detect_ext', '_resolve_archive', '_allow_to_str', '_resolve_fname'],
+    'sugar/_io/main.py': ['_binary', '_is_binary_handle', '_file_opener', 'iter_', 'read', 'read_fts', 'write', 'write_fts', 'detect', 'detect_ext', '_resolve_archive', '_allow_to_str', '_resolve_fname'],
     'sugar/_io/fasta.py': ['is_fasta'],
     'sugar/_io/genbank.py': ['is_genbank'],
     'sugar/_io/stockholm.py': ['is_stockholm'],
@@ -1022,6 +1022,174 @@ def impl_rtree(case):
         os.chdir(cwd0)
         shutil.rmtree(d, ignore_errors=True)
 
+
+# ----------------------------------------------------------------------------- plugin dispatch and kinds of file objects
+
+DISPATCH_ENTRIES = ['read', 'iter_', 'write', 'read_fts', 'write_fts']
+HK_KINDS = ['BytesIO', 'StringIO', 'open rb', 'open r', 'FileIO', 'BufferedReader', 'TextIOWrapper', 'NamedTemporaryFile b', 'NamedTemporaryFile t',
+            'TemporaryFile b', 'SpooledTemporaryFile b', 'SpooledTemporaryFile t', 'SpooledTemporaryFile rolled', 'gzip rb', 'gzip rt', 'bz2 rb',
+            'lzma rb', 'codecs.open', 'zip member', 'tar member', 'duck text', 'duck binary']
+HK_TEXT = '>hk1 desc\nACGT\n>hk2\nGG\n'
+
+
+class _DuckText:
+    """A text stream that is no io class and has neither mode nor encoding."""
+    def __init__(self, s):
+        self._f = io.StringIO(s)
+
+    def __getattr__(self, k):
+        if k in ('read', 'readline', 'seek', 'tell', 'readable', 'seekable', '__iter__', 'closed'):
+            return getattr(self._f, k)
+        raise AttributeError(k)
+
+    def __iter__(self):
+        return iter(self._f)
+
+
+class _DuckBinary:
+    """A binary stream that is no io class; it says so in its mode attribute."""
+    mode = 'rb'
+
+    def __init__(self, b):
+        self._f = io.BytesIO(b)
+
+    def __getattr__(self, k):
+        if k in ('read', 'read1', 'readline', 'readinto', 'seek', 'tell', 'readable', 'seekable', 'writable', 'closed', 'flush'):
+            return getattr(self._f, k)
+        raise AttributeError(k)
+
+
+@contextlib.contextmanager
+def _hk_make(kind):
+    import bz2, lzma, codecs, zipfile, tarfile
+    raw = HK_TEXT.encode()
+    d = tempfile.mkdtemp(prefix='C03-hk-', dir='/tmp')
+    p = os.path.join(d, 'f.dat')
+    with open(p, 'wb') as g:
+        g.write(raw)
+    try:
+        with contextlib.ExitStack() as st:
+            if kind == 'BytesIO':
+                f = io.BytesIO(raw)
+            elif kind == 'StringIO':
+                f = io.StringIO(HK_TEXT)
+            elif kind == 'open rb':
+                f = st.enter_context(open(p, 'rb'))
+            elif kind == 'open r':
+                f = st.enter_context(open(p, 'r'))
+            elif kind == 'FileIO':
+                f = st.enter_context(open(p, 'rb', buffering=0))
+            elif kind == 'BufferedReader':
+                f = io.BufferedReader(io.BytesIO(raw))
+            elif kind == 'TextIOWrapper':
+                f = io.TextIOWrapper(io.BytesIO(raw), encoding='latin-1')
+            elif kind.startswith(('NamedTemporaryFile', 'TemporaryFile', 'SpooledTemporaryFile')):
+                cls = getattr(tempfile, kind.split()[0])
+                text = kind.endswith(' t')
+                kw = {'max_size': 5 if kind.endswith('rolled') else 10 ** 6} if kind.startswith('Spooled') else {}
+                f = st.enter_context(cls(mode='w+' if text else 'w+b', dir=d, **kw))
+                f.write(HK_TEXT if text else raw)
+                f.seek(0)
+            elif kind in ('gzip rb', 'gzip rt', 'bz2 rb', 'lzma rb'):
+                mod = {'gzip': gzip, 'bz2': bz2, 'lzma': lzma}[kind.split()[0]]
+                with mod.open(p + '.c', 'wb') as g:
+                    g.write(raw)
+                f = st.enter_context(mod.open(p + '.c', kind.split()[1]))
+            elif kind == 'codecs.open':
+                f = st.enter_context(codecs.open(p, 'r', 'latin-1'))
+            elif kind == 'zip member':
+                with zipfile.ZipFile(p + '.zip', 'w') as z:
+                    z.write(p, 'f.dat')
+                z = st.enter_context(zipfile.ZipFile(p + '.zip'))
+                f = st.enter_context(z.open('f.dat'))
+            elif kind == 'tar member':
+                with tarfile.open(p + '.tar', 'w') as t:
+                    t.add(p, 'f.dat')
+                t = st.enter_context(tarfile.open(p + '.tar'))
+                f = t.extractfile('f.dat')
+            elif kind == 'duck text':
+                f = _DuckText(HK_TEXT)
+            else:
+                f = _DuckBinary(raw)
+            yield f
+    finally:
+        shutil.rmtree(d, ignore_errors=True)
+
+
+def _hk_facts(f):
+    return [isinstance(f, (io.BufferedIOBase, io.RawIOBase)), hasattr(f, 'encoding'), 'b' in str(getattr(f, 'mode', ''))]
+
+
+def impl_hkind(case):
+    import sugar
+    import sugar._io.main as M
+    ref = _cj(sugar.read(io.BytesIO(HK_TEXT.encode())))
+    with _hk_make(case['hk']) as f:
+        got = bool(M._is_binary_handle(f))
+        delivers_bytes = isinstance(f.read(0), bytes)
+        det = sugar._io.detect(f)
+        assert f.tell() == 0, 'detect moved the handle'
+        objs = sugar.read(f)
+        if _cj(objs) != ref:
+            return 'FAIL: reading the %s gives %s' % (case['hk'], _cj(objs)[:200])
+        if det != 'fasta':
+            return 'FAIL: detect on the %s answers %r' % (case['hk'], det)
+        return [got, delivers_bytes]
+
+
+def impl_dispatch(case):
+    """Which function of a stub plugin offering exactly the flagged functions is called."""
+    import types, sugar
+    import sugar._io.main as M
+    from unittest import mock
+    calls = []
+
+    def mk(name, ret):
+        def fn(*a, **k):
+            calls.append(name)
+            return ret()
+        return fn
+    r_, i_, w_, a_ = case['flags']
+    ns = {}
+    if case['entry'] in ('read_fts', 'write_fts'):
+        if r_:
+            ns['read_fts_stubfmt'] = mk('read', list)
+        if w_:
+            ns['write_fts_stubfmt'] = mk('write', lambda: None)
+    else:
+        if r_:
+            ns['read_stubfmt'] = mk('read', list)
+        if i_:
+            ns['iter_stubfmt'] = mk('iter', lambda: iter([]))
+        if w_:
+            ns['write_stubfmt'] = mk('write', lambda: None)
+        if a_:
+            ns['append_stubfmt'] = mk('append', lambda: None)
+    fake = types.SimpleNamespace(**ns)
+
+    class Eps:
+        def __init__(self, eps):
+            self.eps = eps
+
+        def __getitem__(self, fmt):
+            return types.SimpleNamespace(load=lambda: fake) if fmt == 'stubfmt' else self.eps[fmt]
+    with mock.patch.object(M, 'EPS', {k: Eps(v) for k, v in M.EPS.items()}):
+        e = case['entry']
+        if e == 'read':
+            sugar.read(io.StringIO('x'), 'StubFmt')
+        elif e == 'iter_':
+            list(sugar.iter_(io.StringIO('x'), 'stubfmt'))
+        elif e == 'read_fts':
+            sugar.read_fts(io.StringIO('x'), 'stubfmt')
+        elif e == 'write':
+            mk_basket([{'id': 'a', 'data': 'A'}, {'id': 'b', 'data': 'C'}]).write(io.StringIO(), 'stubfmt', mode=case['mode'])
+        else:
+            mk_fts([{'type': 'CDS', 'start': 0, 'stop': 5, 'strand': '+'}]).write(io.StringIO(), 'STUBFMT', mode=case['mode'])
+    kinds = sorted(set(calls))
+    if len(kinds) != 1 or (kinds == ['append'] and len(calls) != 2) or (kinds != ['append'] and len(calls) != 1):
+        return 'FAIL: calls %r' % calls
+    return kinds[0]
+
 # ----------------------------------------------------------------------------- case generation
 
 HKINDS = ['bytes', 'str', 'fileb', 'filet', 'path', 'Path']
@@ -1173,6 +1341,16 @@ def gen_cases(rng, tier):
         junk = rng.choice(['', '', 'JUNK\n', '>x\n'])
         cases.append({'kind': 'plan', 'what': what, 'content': junk + content, 'offset': len(junk), 'h': rng.choice(['bytes', 'str']), 'sep': sep,
                       'fmt': rng.choice([None, None, fmt, fmt.upper() if fmt else None])})
+    # --- plugin dispatch: every subset of plugin functions x entry point x mode; every kind of file object
+    for e in DISPATCH_ENTRIES:
+        for bits in range(16):
+            flags = [bool(bits & 1), bool(bits & 2), bool(bits & 4), bool(bits & 8)]
+            if e in ('read_fts', 'write_fts') and (flags[1] or flags[3]):
+                continue
+            for mode in (['w', 'a', 'wb', 'x', 'aw', 'r+'] if e == 'write' else ['w', 'a'] if e == 'write_fts' else ['r']):
+                cases.append({'kind': 'dispatch', 'entry': e, 'flags': flags, 'mode': mode})
+    for hk in HK_KINDS:
+        cases.append({'kind': 'hkind', 'hk': hk})
     # --- the recursion of _resolve_fname on real directory trees
     for _ in range(1200 if thorough else 150):
         cases.append(r_rtree(rng))
@@ -1777,6 +1955,10 @@ def impl_sess(case):
 
 def impl(case):
     k = case['kind']
+    if k == 'dispatch':
+        return impl_dispatch(case)
+    if k == 'hkind':
+        return impl_hkind(case)
     if k == 'rtree':
         return impl_rtree(case)
     if k == 'sess':
@@ -1879,6 +2061,13 @@ def model_term(case):
         if fmt == 'infernal':
             return 'out (run_C03_render_infernal %s %s %s)' % (coq_bs(case['l0']), coq_bs(case['l1']), coq_list([coq_bs(x) for x in case['lines']]))
         return 'out (run_C03_render_hits %s %s)' % ('x%02x' % ord(case['sep']), rows_t(case['rows']))
+    if k == 'dispatch':
+        return 'out (run_C03_dispatch %s %s %s)' % (coq_N(DISPATCH_ENTRIES.index(case['entry'])), coq_bs(case['mode']),
+                                                   ' '.join(coq_bool(x) for x in case['flags']))
+    if k == 'hkind':
+        with _hk_make(case['hk']) as f:
+            facts = _hk_facts(f)
+        return 'out (run_C03_hkind %s)' % ' '.join(coq_bool(x) for x in facts)
     if k == 'rtree':
         globs, unpacks, gunzips = _rt_oracle(case)
         a = case['archive']
@@ -1922,6 +2111,8 @@ def split_model(case, m):
 def agree(case, implval, modelval):
     if case['kind'] == 'sess':
         return isinstance(implval, list) and implval[:2] == modelval
+    if case['kind'] == 'hkind':
+        return isinstance(implval, list) and implval[0] == modelval
     if case['kind'] == 'rtree':
         if isinstance(modelval, dict):
             return isinstance(implval, dict) and modelval.get('e') == 'Error'      # any exception class; never OutOfFuel
@@ -1989,6 +2180,24 @@ def spec(case, got):
             if key in seen and seen[key] != r:
                 return 'step %d (%s) answers %r, the same call answered %r before' % (i, st['op'], r, seen[key])
             seen[key] = r
+        return None
+    if k == 'hkind':
+        if not isinstance(got, list):
+            return 'file object %s: %r' % (case['hk'], got)
+        if got[0] != got[1]:
+            return '_is_binary_handle says %r for the %s, read(0) returns %s' % (got[0], case['hk'], 'bytes' if got[1] else 'str')
+        return None
+    if k == 'dispatch':
+        if isinstance(got, str) and got.startswith('FAIL'):
+            return got
+        r_, i_, w_, a_ = case['flags']
+        e = case['entry']
+        # a plugin that offers a function for the job must not be refused
+        able = {'read': r_ or i_, 'iter_': r_ or i_, 'read_fts': r_, 'write_fts': w_, 'write': w_ or (a_ and ('a' in case['mode'] or 'w' in case['mode']))}[e]
+        if able and isinstance(got, dict):
+            return '%s with plugin functions %r (mode %r) raised %s' % (e, case['flags'], case['mode'], got['e'])
+        if not able and not isinstance(got, dict):
+            return '%s with plugin functions %r (mode %r) called %r' % (e, case['flags'], case['mode'], got)
         return None
     if k == 'rtree':
         if isinstance(got, str):
@@ -2124,6 +2333,10 @@ def nontrivial(case, got):
         return 'plan:%s:%s' % (case['fmt'], got[0] if isinstance(got, list) else 'exc')
     if k == 'render':
         return 'render:%s:%s' % (case['fmt'], 'long' if isinstance(got, str) and len(got) > 1000 else 'short')
+    if k == 'dispatch':
+        return 'dispatch:%s:%s:%s' % (case['entry'], case['mode'], got if isinstance(got, str) else 'error')
+    if k == 'hkind':
+        return 'hkind:' + case['hk']
     if k == 'rtree':
         return 'rtree:%s:%s:%s' % (case['arg'], case['archive'], case['entry'])
     if k == 'sess':
@@ -2374,7 +2587,7 @@ def _viol(case, implval, why):
     return {'case': case, 'impl': implval, 'model': None, 'wf': True, 'evaluated': False, 'noshrink': True, 'spec': why}
 
 
-NO_SHRINK_KEYS = ('tree', 'arg', 'archive', 'hkind', 'ops', 'text', 'true', 'nobj', 'w', 'origin', 'expect', 'h', 'what', 'kind', 'entry', 'ft', 'fmt', 'texts', 'handles', 'op', 't', 'kws', 'rkw', 'arch')
+NO_SHRINK_KEYS = ('hk', 'flags', 'mode', 'tree', 'arg', 'archive', 'hkind', 'ops', 'text', 'true', 'nobj', 'w', 'origin', 'expect', 'h', 'what', 'kind', 'entry', 'ft', 'fmt', 'texts', 'handles', 'op', 't', 'kws', 'rkw', 'arch')
 
 
 def extra_checks(rng, tier, cov):
@@ -2429,7 +2642,7 @@ def extra_checks(rng, tier, cov):
     cov['transport_note'] = 'transport independence is relational testing only (partial)'
 
 
-LEVEL_TEXT = ('Machine-checked Coq theorems (55, no axioms) over an executable model of sugar._io and of the command-line converter: detect() restores the position of any '
+LEVEL_TEXT = ('Machine-checked Coq theorems (60, no axioms) over an executable model of sugar._io and of the command-line converter: detect() restores the position of any '
               'handle and equals "first accepting sniffer of the regenerated FMTS_ALL chain" on the remaining content for text and '
               'binary handles; WHOLE-CHAIN detection soundness detect(render_d x) = d, with rejection lemmas for every earlier sniffer, '
               'for FASTA / Stockholm / GFF3 (writer models), SJSON / GenBank (first-line shapes), TSV / CSV of any length incl. beyond '
@@ -2460,7 +2673,11 @@ LEVEL_TEXT = ('Machine-checked Coq theorems (55, no axioms) over an executable m
               'with the declarative reading for any nesting depth (resolve_run_sound, resolve_run_complete, resolves_deterministic), the '
               'name decision as a first-match table stdin > URL > pattern > archive > gzip > plain (resolve_is_table, resolve_url_first), '
               'a name found by a pattern is never expanded again (matched_name_never_globbed); tied by the rtree stream: real directory '
-              'trees with gzip files, wildcard characters in file names, nested archives, read / iter_ with every archive option. Model '
+              'trees with gzip files, wildcard characters in file names, nested archives, read / iter_ with every archive option; which plugin '
+              'function read / iter_ / read_fts / write(mode=) / write_fts call as tables over the functions a plugin offers '
+              '(dispatch_support over the regenerated SUPPORT tables, read_dispatch_spec, write_dispatch_spec, write_default_mode), tied '
+              'by stub plugins offering every subset of functions; which file objects get a text layer (is_binary_handle_spec), tied by '
+              'the hkind stream over 22 kinds of file objects (io, tempfile, gzip/bz2/lzma, codecs, zip/tar members, duck-typed). Model '
               'and code are tied on every run by differential testing of every modelled function (all reachable statements executed in '
               'the quick tier), renderer models against the real writers / readers, and histories of calls on shared state. Transport '
               'independence is relational testing only.')
@@ -2479,7 +2696,9 @@ LEVEL_NOTE = ('PARTIAL / TESTED ONLY: (1) transport independence (path, Path, ha
               'sugar/_io/tab/core.py is modelled but not an anchored file; scripts.py: the two `except BrokenPipeError: pass` lines of '
               'convert / convertf are not reached. (6) the command-line model takes the detected input format and the number of objects '
               'in the file as inputs (tied by the detect streams); which plugin functions exist (read_/iter_/write_/append_) comes from '
-              'the regenerated SUPPORT tables; -f naming a format the file is not in is outside the domain. (7) the recursion model takes what '
+              'the regenerated SUPPORT tables; -f naming a format the file is not in is outside the domain. (8) _is_binary_handle is modelled as a function of three facts read off the object by introspection (instance '
+              'of the io classes for binary files, has an encoding attribute, b in the mode text); that these are what decides is tied by '
+              'the hkind stream, whose oracle is "read(0) returns bytes". (7) the recursion model takes what '
               'glob / unpack_archive / gzip answer as an oracle; the rtree stream asks the real functions on a copy of the generated tree '
               'and sorts glob results; download branches are leaves. OPEN (genuine defect, pending fix archdir): an archive or pattern '
               'holding a DIRECTORY with a dot in its name (v1.0/seqs.fa) raises IsADirectoryError -- such trees are kept out of the rtree '
